@@ -486,6 +486,12 @@ func (p *Packer) Unpack(r io.Reader, dst string) error {
 		}
 
 		if info.IsDirectory() {
+			// Create the directory itself: nothing else does for one that has
+			// no entries below it.
+			if err := os.MkdirAll(info.Path, 0755); err != nil {
+				return fmt.Errorf("failed to create directory %q: %w", info.Path, err)
+			}
+
 			// Restore directory info after all files are extracted because
 			// the extraction process changes directory's timestamps.
 			directoriesExtracted = append(directoriesExtracted, info)
